@@ -1177,13 +1177,14 @@ def run_impl_setuptype(case):
     from eups.table import Table
     from eups.Product import Product
     import eups.utils as utils
-    hooks.config.Eups.defaultProduct["name"] = None
+    # (Eups(readCache=False), as `setup` constructs it, does not survive defaultProduct["name"] = None)
+    hooks.config.Eups.defaultProduct.update({"name": "implicitProducts", "version": None, "tag": None})
     sink = io.StringIO()
     utils.stderr = utils.stdwarn = utils.stdinfo = utils.stdok = sink
     if _st_root is None:
         _st_root = common.scratch("c11st")
-        common.mkstacks(_st_root)
-    out = {"types": None, "actions": None, "deptypes": None}
+        common.mkstacks(_st_root, default_product=True)
+    out = {"types": None, "actions": None, "deptypes": None, "cli": None}
     with contextlib.redirect_stderr(io.StringIO()), contextlib.redirect_stdout(io.StringIO()):
         arg = case["arg"]
         if case["via"] == "cmd":
@@ -1191,6 +1192,8 @@ def run_impl_setuptype(case):
         kw = {}
         if case["valid"] is not None:
             kw["validSetupTypes"] = case["valid"]
+        if case["via"] in ("cmd", "setup") and case["valid"] is None:
+            out["cli"] = run_cli(case)                           # the real command classes, option parser included
         try:
             E = common.new_eups(setupType=list(arg) if isinstance(arg, list) else arg, exact_version=case["exact"], **kw)
         except Exception as ex:  # noqa
@@ -1201,7 +1204,7 @@ def run_impl_setuptype(case):
         with open(path, "w") as f:
             f.write(case["text"])
         try:
-            table = Table(path, Product(PRODUCT, "1.0", flavor="Linux", dir="/nowhere/foo"))
+            table = Table(path, Product(PRODUCT, "1.0", flavor="Linux", dir="/nowhere/foo"), addDefaultProduct=False)
             out["actions"] = [canon_action(a) for a in table.actions(case["flavor"], setupType=E.setupType)]
             seen = []
 
@@ -1216,6 +1219,42 @@ def run_impl_setuptype(case):
     return out
 
 
+def run_cli(case):
+    """`eups list [-e] -T <arg>` through eups.cmd.EupsCmd, `setup [-e] --type <arg> <no such product>` through
+    eups.setupcmd.EupsSetup: the setupType / exact_version of the Eups instance the command constructs."""
+    import eups
+    import eups.cmd
+    import eups.setupcmd
+    orig = eups.Eups
+    seen = []
+
+    class Spy(orig):
+        def __init__(self, *a, **k):
+            try:
+                super().__init__(*a, **k)
+            except Exception as ex:  # noqa
+                seen.append(type(ex).__name__)
+                raise
+            seen.append({"types": list(self.setupType), "exact": bool(self.exact_version)})
+    eups.Eups = Spy
+    eups.cmd._errstrm = io.StringIO()                            # module-level stream the commands write diagnostics to
+    try:
+        flag = ["-e"] if case["exact"] is True else []
+        try:
+            if case["via"] == "cmd":
+                eups.cmd.EupsCmd(args=["list"] + flag + ["-T", case["arg"]], toolname="eups").run()
+            else:
+                eups.setupcmd.EupsSetup(args=flag + ["--type", case["arg"], "nosuchproduct"], toolname="eups_setup").run()
+        except SystemExit:
+            pass
+        except Exception as ex:  # noqa
+            if not seen:
+                seen.append({"err": type(ex).__name__})
+    finally:
+        eups.Eups = orig
+    return seen[0] if seen else {"err": "no Eups constructed"}
+
+
 def run_impl_setuptype_chunk(cases):
     global _st_root
     res = [run_impl_setuptype(c) for c in cases]
@@ -1226,6 +1265,8 @@ def run_impl_setuptype_chunk(cases):
 
 
 def evaluate_setuptype(ctx, cases):
+    if not cases:
+        return
     nw = 4
     impl = parallel_map(run_impl_setuptype_chunk, [cases[i::nw] for i in range(nw)], workers=nw)
     impls = [None] * len(cases)
@@ -1249,7 +1290,8 @@ def evaluate_setuptype(ctx, cases):
             a = next(a2)
             mo["actions"] = a["actions"] if a.get("out") == "ok" else {"err": a.get("err", "fuel")}
             mo["deptypes"] = next(a2)["types"]
-        inp = {k: c[k] for k in ("kind", "via", "arg", "exact", "valid", "text", "flavor", "follow")}
+        inp = {k: c[k] for k in ("kind", "via", "arg", "exact", "valid", "text", "flavor", "follow", "expect_types", "expect_actions",
+                                 "expect_deptypes")}
         ctx.hist("kind=setuptype")
         ctx.hist("setuptype_via=" + c["via"])
         ctx.hist("setuptype=" + (io_["types"] if isinstance(io_["types"], str) else "%d types%s" % (len(io_["types"]["types"]), ", exact" if io_["types"]["exact"] else "")))
@@ -1258,8 +1300,13 @@ def evaluate_setuptype(ctx, cases):
         if dec:
             ctx.hist("model_declined")
             mo["actions"] = io_["actions"]
+        if io_.get("cli") is not None:
+            ctx.hist("setuptype_cli=" + c["via"])
+            mo["cli"] = mo["types"]
         if mo["types"] != io_["types"]:
             ctx.disagree("setup_type", inp, io_, mo)
+        elif io_.get("cli") is not None and mo["types"] != io_["cli"]:
+            ctx.disagree("setup_type_cli", inp, io_, mo)
         elif mo["actions"] != io_["actions"]:
             ctx.disagree("actions_via_setup_type", inp, io_, mo)
         elif mo["deptypes"] != io_["deptypes"] and not isinstance(io_["actions"], dict):
@@ -1268,6 +1315,9 @@ def evaluate_setuptype(ctx, cases):
             ctx.hist("setuptype_claimed")
             if io_["types"] != c["expect_types"]:
                 ctx.fail("setup_type", inp, io_, mo, note="the option names %s, Eups holds %s" % (json.dumps(c["expect_types"]), json.dumps(io_["types"])))
+            elif io_.get("cli") is not None and io_["cli"] != c["expect_types"]:
+                ctx.fail("setup_type_cli", inp, io_, mo, note="the option names %s, the Eups instance of the command holds %s"
+                         % (json.dumps(c["expect_types"]), json.dumps(io_["cli"])))
             elif c["expect_actions"] is not None and io_["actions"] != c["expect_actions"]:
                 ctx.fail("blocks_via_setup_type", inp, io_, mo, note="for flavor %s and the types of the option the table denotes %s, eups derives %s"
                          % (c["flavor"], json.dumps(c["expect_actions"]), json.dumps(io_["actions"])))
@@ -1311,7 +1361,8 @@ def run(ctx):
     is starved when the time limit cuts the run short."""
     cases = corpus_cases()
     ctx.hist("corpus", len(cases))
-    evaluate(ctx, cases)
+    evaluate(ctx, [c for c in cases if c.get("kind") != "setuptype"])
+    evaluate_setuptype(ctx, [c for c in cases if c.get("kind") == "setuptype"])
     en = enum_chain_cases()
     ctx.hist("enumerated_chains", len(en))
     evaluate(ctx, en)
@@ -1333,6 +1384,7 @@ def run(ctx):
     if not ctx.out_of_time():
         evaluate_setuptype(ctx, [gen_setuptype_case(ctx.rng) for _ in range(400)])
         for need in ("setuptype_via=setup", "setuptype_via=cmd", "setuptype_via=init_list", "setuptype=EupsException",
+                     "setuptype_cli=cmd", "setuptype_cli=setup",
                      "setuptype=2 types, exact", "setuptype_claimed"):
             if not ctx.histogram.get(need):
                 raise common.InfraError("degenerate distribution: no case with " + need)
@@ -1406,4 +1458,15 @@ def replay_setuptype(ctx, c):
                                {"m": "c11", "op": "deptypes", "types": mo["types"]["types"], "followExact": bool(fe)}])
         mo["actions"] = b[0]["actions"] if b[0].get("out") == "ok" else {"err": b[0].get("err", "fuel")}
         mo["deptypes"] = b[1]["types"]
-    return {"input": c, "impl_output": io_, "model_output": mo, "agree": io_ == mo, "fails": []}
+    mo["cli"] = mo["types"] if io_.get("cli") is not None else None
+    fails = []
+    if c["expect_types"] is not None and r[0] == "ok":
+        if io_["types"] != c["expect_types"]:
+            fails.append({"clause": "setup_type", "detail": "the option names %s, Eups holds %s" % (json.dumps(c["expect_types"]), json.dumps(io_["types"]))})
+        elif io_.get("cli") is not None and io_["cli"] != c["expect_types"]:
+            fails.append({"clause": "setup_type_cli", "detail": "the Eups instance of the command holds %s" % json.dumps(io_["cli"])})
+        elif c["expect_actions"] is not None and io_["actions"] != c["expect_actions"]:
+            fails.append({"clause": "blocks_via_setup_type", "detail": "eups derives %s" % json.dumps(io_["actions"])})
+        elif c["expect_deptypes"] is not None and io_["deptypes"] != c["expect_deptypes"] and not isinstance(io_["actions"], dict):
+            fails.append({"clause": "dependencies_types", "detail": "Table.dependencies asked for %s" % json.dumps(io_["deptypes"])})
+    return {"input": c, "impl_output": io_, "model_output": mo, "agree": io_ == mo, "fails": fails}
